@@ -32,12 +32,14 @@ class C18(Prop):
     assumptions = [
         "observations are sha1 digests of (html, dependency order) printed by each process; processes are compared by TLC",
         "the battery covers: tree with dependencies, head_content names, HTMLDocument, HTMLTextDocument extraction, "
-        "attribute/class/style helpers and css(), a JSX component, two versions of a package-sourced dependency",
+        "attribute/class/style helpers and css(), a JSX component, two versions of a package-sourced dependency, and a page / "
+        "text document object that lives as long as the process and is rendered again whenever its item is scheduled",
     ]
 
     def model_runs(self, tier):
         return [{"module": "Determinism", "cfg": f"Determinism_{tier}.cfg"},
-                {"module": "Determinism", "cfg": f"Determinism_{tier}2.cfg"}]
+                {"module": "Determinism", "cfg": f"Determinism_{tier}2.cfg"},
+                {"module": "Determinism", "cfg": "Determinism_kept.cfg"}]
 
     def nontrivial(self, rec):
         if rec["k"] == "runs":
@@ -45,8 +47,14 @@ class C18(Prop):
         return True
 
     def gens_from_export(self, lines, tier, rnd):
-        orders = [ln["order"] for ln in lines]
-        rnd.shuffle(orders)
+        # equal shares from every battery (the batteries have very different numbers of schedules)
+        by_battery = {}
+        for ln in lines:
+            by_battery.setdefault(frozenset(ln["order"]), []).append(ln["order"])
+        groups = [sorted(v) for _, v in sorted(by_battery.items(), key=lambda kv: sorted(kv[0]))]
+        for v in groups:
+            rnd.shuffle(v)
+        orders = [o for tup in zip(*[v + [None] * (max(map(len, groups)) - len(v)) for v in groups]) for o in tup if o is not None]
         nsched = 24 if tier == "quick" else min(len(orders), 720)
         seeds = [0, 1, 2] if tier == "quick" else [0, 1, 2, 3] + [rnd.randrange(2 ** 31) for _ in range(12)]
         picked = orders[:nsched]
@@ -55,6 +63,11 @@ class C18(Prop):
         group = 8 if tier == "quick" else 12
         for i in range(0, len(picked), group):
             gens.append({"kind": "batch", "orders": picked[i:i + group], "seeds": seeds if tier == "quick" else rnd.sample(seeds, 6)})
+        # always: the schedules (behaviours of the same model) in which a process-lifetime item is the repeated one
+        kept = [o for o in orders if o.count(13) == 2 or o.count(14) == 2]
+        if kept:
+            gens.append({"kind": "batch", "orders": [next(o for o in kept if o.count(13) == 2), next(o for o in kept if o.count(14) == 2)]
+                         + [o for o in orders if set(o) == {1, 5, 13, 14} and len(o) == 4][:1], "seeds": seeds[:3]})
         return gens
 
     def gens_random(self, tier, rnd):
